@@ -133,9 +133,13 @@ def fragment_function(c):
     # the block becomes the body of a function of the fragment's input locals (so that a `return` inside it is legal);
     # falling off the end hands back the final locals
     tail = ast.parse("return ('__fragment_locals__', locals())").body[0]
+    # the block runs as the body of a one-iteration loop, so that a `break` / `continue` taken from an enclosing loop of the
+    # real function is legal here; `fragment_broke` tells the contract which way the block was left
+    wrapper = ast.parse("fragment_broke = True\nfor __once__ in (0,):\n    pass\n    fragment_broke = False").body
+    wrapper[1].body = [_copy.deepcopy(s) for s in block] + [wrapper[1].body[1]]
     fdef = ast.FunctionDef(name="__fragment__", args=ast.arguments(posonlyargs=[], args=[ast.arg(arg=a) for a in c.params],
                                                                      kwonlyargs=[], kw_defaults=[], defaults=[]),
-                           body=[_copy.deepcopy(s) for s in block] + [tail], decorator_list=[], type_params=[])
+                           body=wrapper + [tail], decorator_list=[], type_params=[])
     mod = ast.Module(body=[fdef], type_ignores=[])
     ast.fix_missing_locations(mod)
     code = compile(mod, f"<fragment of {c.target}>", "exec")
